@@ -711,6 +711,10 @@ def origin(body, op_or_place, depth=16, carriers=CARRIERS):
             if "fn" in t:
                 c = Callee(t["fn"])
                 last = c.path.split("::")[-1]
+                if "map_err" in carriers and c.local and "svgdx::errors::" in c.path and len(t["args"]) >= 1 and last not in carriers:
+                    # a helper of the crate's error module applied to a Result (`res.or_other()`): like map_err, the
+                    # value it carries is its first operand
+                    last = "map_err"
                 if last in carriers and len(t["args"]) > carriers[last]:
                     a = t["args"][carriers[last]]
                     k = op_const(a)
